@@ -225,6 +225,9 @@
 //! is always safe for an application to store additional data in
 //! files or directories that start with a `.`, as long as they do not
 //! collide with the `.kismet` prefix.
+#[cfg(kismet_verif)]
+#[allow(unused_imports)]
+use kismet_vfs::{filetime, libc, rand, std, tempfile};
 mod benign_error;
 mod cache_dir;
 mod multiplicative_hash;
@@ -236,6 +239,8 @@ pub mod sharded;
 mod stack;
 mod trigger;
 
+#[cfg(kismet_verif)]
+pub use trigger::verif_swap_countdown;
 pub use readonly::ReadOnlyCache;
 pub use readonly::ReadOnlyCacheBuilder;
 pub use stack::Cache;
